@@ -319,12 +319,30 @@ CHECKS = {
          "probes; G1-G3 left open by the Go specification: evaluation order variable-read vs call, map iteration order). Trusted: the Go toolchain (the oracle), "
          "go/types, the harness's pretty printer and result codec (self-tested by an altered-tree run: 200 cases must be flagged).",
          "executable TLA+ semantics as generator and drift detector; TLC exhaustive enumeration + simulation; differential replay on pkg/compiler + pkg/vm vs go build; TLC trace validation of ABI facts"),
+ "C17": ("model_checking",
+         "PARTIAL. What is decided is the part of the statement that is a state machine - PATH INDEPENDENCE of hash, reported sizes, canonical bytes and content - plus the "
+         "round-trip, canonical-form and decode laws on value spaces TLC can enumerate; NOT all byte strings. WirePaths.tla: an object of 15 kinds (transaction, block, header, "
+         "state root, extensible / consensus payloads, notary request, execution result, notification, NEF, manifest, contract state, trie node, witness rule tree, stack item) "
+         "carries content plus explicit hash / size memo fields and travels along a path of transports (P2P message with the compression threshold, block body, mempool, "
+         "database, RPC JSON, re-encoding, copy, from-bytes, stack item form, encode-in-place); invariants PathIndependent, SizeExact, NoRefusal, Confluent are checked "
+         "exhaustively by TLC for all paths of length <= 3 (quick) / 4 (thorough) over canonical and non-canonical arrivals; nine named deviations (among them the two "
+         "defects this check found and that were repaired) and the one quirk the code still has are refuted by TLC every run. TLC enumerates every such path (9.9k / 50k) and the "
+         "driver realises each on a FRESH real object (values instantiated from TLC shapes, hand-made size classes, objects grown on two real ledgers by histgen), reading back "
+         "hash / sizes / canonical bytes / content after the last hop; WireShapes.tla enumerates constructor trees (witness conditions to one level beyond the limit, all signer "
+         "scope sets, attribute lists, stack items incl. shared / recursive / limit cases, manifests, NEF) with the documented limits as predicates: binary and JSON round trips, "
+         "binary->JSON->binary, agreement of the two decoders; TLC-chosen mutations (operator x field x anchor) of valid encodings of 42 binary and 18 JSON formats are decoded in "
+         "guarded child processes (5 s, 3 GB heap guard, allocation delta): error or re-encode/decode fixpoint with equal hash and sizes, no panic, bounded time and allocation. "
+         "Every recorded hop / shape / mutation is judged by TLC (WireTrace). Six repairs made (see known_findings.json fixed:), 17 listed findings remain (JSON decoders accepting "
+         "what the binary decoder refuses, reserved attribute JSON, invocation arguments lost through JSON).",
+         "DESIGN.md section 10.10 (C17)",
+         "NOT covered: arbitrary byte strings (only structured mutations of valid samples: operator x learnt field), formats outside the 42+18 listed in harness/c17wire/formats.go, "
+         "paths longer than K, values beyond the shape bounds. Trusted: TLC, the field maps learnt through a recording reader, the content renderer of the harness (self-tested: 12 "
+         "corrupted events must each be named by the judge, 10 model refutations must happen).",
+         "TLA+ path model with explicit memo state; TLC exhaustive + enumeration of paths / shapes / mutations; replay of every case on real codecs; TLC trace validation"),
 }
 
 NOT_YET = {}   # id -> reason (properties not (yet) claimed)
-NA = {
- "C17": "not applicable to the studied family: byte-level encode/decode fidelity of ~20 formats over all byte strings is grammar restatement, which TLC cannot enumerate; the one behavioural slice (identity of a transaction received in a non-canonical encoding) is reached through C07 (DESIGN.md section 5)",
-}
+NA = {}
 
 # additions of later rounds, appended to the level text / level note of the property (DESIGN.md section 10.9)
 EXTRA_TEXT = {
